@@ -469,4 +469,53 @@ def returnE2E (K : KindLists) (values : List Boxed) (outs : List Ty) : CallRes :
       | none => .callPanic
       | some rs => .got rs
 
+/-! ## `When.Matches(arg.Pair{Args, Return})` and `Returns(v1, v2, …)` -/
+
+/-- what the user writes as `Pair.Return`, or as one element of `Returns(...)`: a bare value (possibly the untyped
+    nil), or a `[]interface{}` of values.  (A bare value whose dynamic type is `[]interface{}` is the second form.) -/
+inductive PairRet where
+  | one (b : Boxed)
+  | list (bs : List Boxed)
+  deriving DecidableEq, Repr
+
+/-- `when.go:181-184` (Matches) and `:200-203` (Returns):
+    `results, ok := v.Return.([]interface{}); if !ok { results = []interface{}{v.Return} }` —
+    a bare value, **nil included**, is a single result. -/
+def PairRet.results : PairRet → List Boxed
+  | .one b => [b]
+  | .list bs => bs
+
+/-- `Matches(Pair{Args: a, Return: r})` followed by a call whose arguments match `a`:
+    `when.go:186 newDefaultMatch(args, results, …)` → `matcher.go:21 newBaseMatcher` → `I2V(results, outTypes, false)`
+    (an error is a panic; there is no `checkParams` on this path), then the result check of `reflect.MakeFunc`. -/
+def matchesE2E (K : KindLists) (r : PairRet) (outs : List Ty) : CallRes :=
+  match I2V K r.results outs false with
+  | .error e => .cfgPanic e
+  | .ok vs =>
+    if vs.any (fun v => !v.wellFlagged) then .callUnmodelled
+    else match deliver vs outs with
+      | none => .callPanic
+      | some rs => .got rs
+
+/-- `Returns(g₁, …, g_k)` on a fresh mocker (`mocker.go:555`, `when.go:194`): every group is converted at configuration
+    time (`Return` → `newAlwaysMatch`, `AndReturn` → `AddResult`); the first failing group panics. -/
+def seqConfigure (K : KindLists) (outs : List Ty) : List PairRet → Res (List (List RV))
+  | [] => .ok []
+  | g :: gs =>
+    match I2V K g.results outs false with
+    | .error e => .error e
+    | .ok vs => match seqConfigure K outs gs with
+      | .error e => .error e
+      | .ok r => .ok (vs :: r)
+
+/-- the i-th call (0-based) after `Returns(g₁ … g_k)`: results of group `min i (k-1)` (`matcher.go:40 Result`) -/
+def seqCall (stored : List (List RV)) (outs : List Ty) (i : Nat) : CallRes :=
+  match stored[min i (stored.length - 1)]? with
+  | none => .callPanic
+  | some vs =>
+    if vs.any (fun v => !v.wellFlagged) then .callUnmodelled
+    else match deliver vs outs with
+      | none => .callPanic
+      | some rs => .got rs
+
 end Convert
